@@ -227,7 +227,6 @@ func (p *proxyCtx) SetRuleEntry(re *ast.RuleEntry) {
 
 func (p *proxyCtx) IsComplete() bool {
 	seq := p.rec.add(Event{Kind: "iscomplete"})
-	_ = seq
 	r := p.rec
 	if !r.noSnap && r.live != nil {
 		st := CopyState(r.live())
@@ -235,8 +234,8 @@ func (p *proxyCtx) IsComplete() bool {
 		if r.After == nil {
 			r.After = map[uint64]State{}
 		}
-		// key: number of iscomplete events so far == number of completed firings
-		r.After[uint64(len(r.After)+1)] = st
+		// key: the stamp of the event (the engine may ask IsComplete any number of times)
+		r.After[uint64(seq)] = st
 		r.mu.Unlock()
 	}
 	return p.IDataContext.IsComplete()
